@@ -248,7 +248,9 @@ func (p *c17Proc) clientStream(ctx *Ctx, kind int, desc string, startup primitiv
 		if started {
 			_ = cl.SendRaw(stream)
 			if complete {
-				f, err := cl.Next(4 * time.Second)
+				// a length field of 2^31-1 inside a small frame makes the reference decoder allocate that much before it
+				// notices the short input, which can take seconds: slow, but answered
+				f, err := cl.Next(30 * time.Second)
 				offending = f != nil || err != nil // answered, or closed
 			} else {
 				f, err := cl.Next(150 * time.Millisecond)
